@@ -19,6 +19,9 @@ binding (in process):    every term is built as a go/types value by an injected 
                          (which also self-validates the profile, as does go/types' own gc sizes for func-free terms)
 binding (end to end):    llgo-compiled programs print unsafe.Sizeof/Alignof/Offsetof constants, address differences of
                          real array elements / fields, and reflect sizes for a sample of the terms (host).
+Reported cases are minimal: a disagreeing term none of whose components disagrees; keys are
+layout:<goarch>:<class of the minimal term>:<quantities, and which two computations still agree>  (e2e:... for compiled programs).
+VERIF_C08_E2E=0 skips the end-to-end part (development aid for mutation runs of the in-process part).
 """
 import json
 import os
@@ -240,11 +243,13 @@ def judge(arch, rec, o):
         if [c[0], c[1], o["cd"][0], o["cd"][1]] != list(o["ct"]):
             probs.append(("desc!=table", "descriptor constants (size, align, fieldalign, ptrbytes) %s differ from the abi tables %s" % ([c[0], c[1]] + list(o["cd"]), o["ct"])))
     if arch == HOST:
-        want = lay(rec["L"][0])
+        # Layout(amd64); the byte after a zero-size tail field is gc's convention, not the language's, so a computation may
+        # follow either convention here - that all three follow the same one is what the agreement above demands
+        want = (lay(rec["L"][0]), lay(rec["L"][1]))
         for nm in "abc":
             got = lay(o[nm])
-            if got != want:
-                probs.append(("spec(%s)" % nm, "%s = %s but Layout(amd64) = %s" % ({"a": "compile-time", "b": "code generation", "c": "descriptor"}[nm], got, want)))
+            if got not in want:
+                probs.append(("spec(%s)" % nm, "%s = %s but Layout(amd64) = %s" % ({"a": "compile-time", "b": "code generation", "c": "descriptor"}[nm], got, want[0])))
     return probs
 
 
@@ -429,16 +434,38 @@ def e2e_program(recs, idxs):
 	rt := reflect.TypeOf(&v[0]).Elem()
 	println(%d, "a", unsafe.Sizeof(v[0]), unsafe.Alignof(v[0])%s)
 	println(%d, "b", addr(unsafe.Pointer(&v[1]))-addr(unsafe.Pointer(&v[0])), addr(unsafe.Pointer(&w.x))-addr(unsafe.Pointer(&w))%s)
-	println(%d, "g", gsize(v[0]), galign(v[0]))
+	println(%d, "g", gsize(&v[0]), galign(&v[0]))
 	println(%d, "c", rt.Size(), rt.Align(), rt.FieldAlign()%s)
 }
 """ % (i, ty, ty, i, a, i, b, i, i, c))
     src = ("package main\n\nimport (\n\t\"reflect\"\n\t\"unsafe\"\n)\n\n"
            "//go:noinline\nfunc addr(p unsafe.Pointer) uintptr { return uintptr(p) }\n\n"
-           "func gsize[X any](x X) uintptr  { return unsafe.Sizeof(x) }\nfunc galign[X any](x X) uintptr { return unsafe.Alignof(x) }\n\n"
+           "func gsize[X any](p *X) uintptr  { return unsafe.Sizeof(*p) }\nfunc galign[X any](p *X) uintptr { return unsafe.Alignof(*p) }\n\n"
            + "\n".join(d for d in r.decls) + "\n\n" + "\n".join(funcs)
            + "\nfunc main() {\n" + "".join("\tt%d()\n" % i for i in idxs) + "\tprintln(\"DONE\")\n}\n")
     return src
+
+
+class BuildFailed(Exception):
+    pass
+
+
+def run_e2e(chk, recs, idxs, label, failures, budget):
+    """run_e2e_batch, isolating terms the compiler itself cannot compile (a compiler crash is not a verdict on C08):
+    a failing batch is split until the offending terms stand alone; they are recorded in `failures` and left out"""
+    try:
+        return run_e2e_batch(chk, recs, idxs, label)
+    except BuildFailed as e:
+        if len(idxs) == 1:
+            failures.append({"term": show(recs[idxs[0]]["t"]), "output": str(e)[:400]})
+            return {}
+        budget[0] -= 1
+        if budget[0] < 0:
+            raise C.Undecided("llgo cannot build the layout programs (too many failing batches):\n" + str(e)[:3000])
+        h = len(idxs) // 2
+        out = run_e2e(chk, recs, idxs[:h], label + "l", failures, budget)
+        out.update(run_e2e(chk, recs, idxs[h:], label + "r", failures, budget))
+        return out
 
 
 def run_e2e_batch(chk, recs, idxs, label):
@@ -455,7 +482,7 @@ def run_e2e_batch(chk, recs, idxs, label):
     shutil.rmtree(cache, ignore_errors=True)
     C.log("end-to-end program %s: %d terms built by llgo in %.0fs" % (label, len(idxs), time.time() - t0))
     if not ok:
-        raise C.Undecided("llgo cannot build the layout program %s:\n%s" % (label, out[-3000:]))
+        raise BuildFailed(out)
     st, so, _ = C.run_exe(exe, timeout=120, merge=True)
     if st != 0 or "DONE" not in so:
         raise C.Undecided("the llgo-compiled layout program %s failed (status %s):\n%s" % (label, st, so[-1500:]))
@@ -564,7 +591,8 @@ def check(chk):
     if os.environ.get("VERIF_C08_E2E") == "0":      # development aid (mutation testing of the in-process part only)
         e2e_idx = []
     batches = [e2e_idx[k:k + 400] for k in range(0, len(e2e_idx), 400)]
-    f_e2e = [pool.submit(run_e2e_batch, chk, recs, b, "b%d" % bi) for bi, b in enumerate(batches)]
+    e2e_failures, e2e_budget = [], [24]
+    f_e2e = [pool.submit(run_e2e, chk, recs, b, "b%d" % bi, e2e_failures, e2e_budget) for bi, b in enumerate(batches)]
     results = run_targets(chk, testbin, cases, TARGETS)
     C.log("in-process harness: %d terms x %d targets in %.0fs" % (len(recs), len(TARGETS), time.time() - t0))
 
@@ -574,6 +602,7 @@ def check(chk):
         raise C.Undecided("negative control term not enumerated")
     wrong = json.loads(json.dumps(recs[ki]))
     wrong["L"][0][0] += 1
+    wrong["L"][1][0] += 1
     o64 = results[HOST][1][ki]
     tags = lambda probs: set(t for t, _ in probs)
     if not (tags(judge(HOST, wrong, o64)) - tags(judge(HOST, recs[ki], o64))) & {"spec(a)", "spec(b)", "spec(c)"}:
@@ -658,6 +687,7 @@ def check(chk):
     e2e_obs = {}
     for f in f_e2e:
         e2e_obs.update(f.result())
+    e2e_idx = [i for i in e2e_idx if i in e2e_obs]
     bad = {i: p for i, p in ((i, judge_e2e(recs[i], e2e_obs[i])) for i in e2e_idx) if p}
     groups = {}
     e2e_explained = 0
@@ -704,6 +734,7 @@ def check(chk):
     chk.cov["reference_sizes_self_validation"] = nref
     chk.cov["end_to_end_terms"] = len(e2e_idx)
     chk.cov["end_to_end_disagreeing"] = len(bad)
+    chk.cov["end_to_end_compiler_failures"] = e2e_failures[:10]
     chk.cov["harness_errors"] = nerr
     mid = recs[len(recs) // 2]
     chk.sample({"term": show(mid["t"]), "spec": dict(zip(PROFILES, mid["L"])),
@@ -714,6 +745,8 @@ def check(chk):
         "compile-time sizes are obtained as internal/build.Do obtains them: compiler/arch from `go list`, types.SizesFor, then "
         "Do's `sizes` closure compiled verbatim from internal/build/build.go (end-to-end programs confirm on the host)",
         "off the host only agreement of llgo's own three computations is judged; the fitted profile is reported",
+        "on the host each computation must equal Layout(amd64) with or without the byte gc adds after a zero-size tail field "
+        "(the language does not prescribe it); which of the two is chosen must be the same in all three (agreement)",
         "a disagreeing term built from an already disagreeing component is counted, not reported separately",
     ]
 
